@@ -6,10 +6,10 @@ PROPS["C02"] = dict(
                     require=["kind.serve", "kind.clean", "kind.attr", "cache.mem", "cache.dir1", "cache.dirdirect", "cache.dirasync",
                              "build.gzip", "build.zstd", "build.min_chunk_size", "build.prioritized", "build.workers>1",
                              "op.read", "op.prefetch", "op.evict", "op.evictall", "read.past_eof", "read.beyond_eof",
-                             "read.multichunk_file", "read.chunk.hit", "read.chunk.miss", "mates.shared", "result.open_failed", "op.par"]),
+                             "read.multichunk_file", "read.chunk.hit", "read.chunk.miss", "mates.shared", "result.open_failed", "op.par", "op.pt", "kind.layers", "layers.read"]),
                dict(cmd="servedb", mod="cmdmod", model="Model.Serve", quick=40, thorough=1500, shard=5, coq_jobs=12,
                     preamble="From SV Require Import Model.ChunkRead Model.TarView.",
-                    require=["kind.serve", "cache.mem", "build.min_chunk_size", "op.read", "op.prefetch", "op.grow", "read.multichunk_file",
+                    require=["kind.serve", "kind.layers", "layers.read", "cache.mem", "build.min_chunk_size", "op.read", "op.prefetch", "op.grow", "read.multichunk_file",
                              "read.chunk.hit", "read.chunk.miss", "mates.shared"])],
     rule="random tars (reg/dir/symlink/hardlink chains/char/block/fifo; names with ./ / ../ // /./ x/zz/.. prefixes; implicit parents; explicit root; "
          "duplicates; empty and multi-chunk files with sizes around chunk boundaries; PAX xattrs; setuid/setgid/sticky) x estargz.Build options "
